@@ -6,6 +6,7 @@ import (
 	"time"
 
 	"perkeep.org/pkg/blob"
+	"perkeep.org/pkg/schema"
 )
 
 // C07Extra selects the directed claim patterns that ExtendC07 appends to a generated world.
@@ -22,7 +23,27 @@ type C07Extra struct {
 	PathChain      bool // camliPath:<suffix> history: set, re-set to another target, del with value, del without value
 	DeepChain      bool // a delete/undelete chain of depth 5..9 on one attribute claim
 	ExtraDeletes   int  // delete claims on random attribute claims of the world (after the patterns were added)
+	// LexDates: 3..6 claims by signer 1 on one attribute inside one wall-clock second whose dates have
+	// fractional parts of different lengths (none, .5, .25, .2, .125, .100000001, ...), so that the
+	// RFC 3339 date STRINGS (the claim rows' sort key) do not sort chronologically; the operations are
+	// chosen so that applying them in string order gives another value than applying them in date order.
+	LexDates bool
+	// ReopenChains adds that many delete chains target <- d1 <- ... <- dL (L 3..6) meant for a phased
+	// delivery with a re-open of the index between the phases: target and d1..dr (r >= 2) are pinned to
+	// phase 0, d(r+1) to phase 1, the rest to phase 1 or later.  The pins go to Pins (must be non-nil).
+	ReopenChains int
+	Pins         map[blob.Ref]int
 }
+
+// lexFractions are sub-second parts (ns) whose RFC 3339 renderings are prefixes of each other in
+// many combinations (trailing zeros are not written: 500000000 is ".5").
+var lexFractions = []int64{0, 5e8, 25e7, 2e8, 125e6, 12e7, 1e8, 100000001, 9e8, 99e7, 999999999, 3e8, 35e7, 355e6}
+
+// lexPairs: pairs (earlier, later) of lexFractions whose string order is the reverse of their time order.
+var lexPairs = [][2]int64{{0, 5e8}, {0, 1e8}, {0, 999999999}, {0, 25e7}, {2e8, 25e7}, {1e8, 12e7}, {12e7, 125e6}, {1e8, 100000001}, {9e8, 99e7}, {99e7, 999999999}, {3e8, 35e7}, {35e7, 355e6}}
+
+// C07DateKey is the claim date as the claim blob (and therefore the claim row's key) spells it.
+func C07DateKey(d time.Time) string { return schema.RFC3339FromTime(d) }
 
 var escapedAttrNames = []string{"sp ace", "pipe|d", "pct%41", "ünï", "tags", "Tag", "ta", "q?=&"}
 
@@ -259,6 +280,114 @@ func ExtendC07(w *World, rng *rand.Rand, o C07Extra) {
 			w.Features["c07-deep-delete-chain"] = true
 		}
 	}
+	if o.LexDates {
+		pn := pickPN()
+		attr := []string{"lexdate", "title", "tag", "sp ace"}[rng.Intn(4)]
+		var base time.Time
+		var fr []int64
+		for try := 0; try < 50 && fr == nil; try++ {
+			base = lo.Add(time.Duration(rng.Int63n(span)) * time.Second).Truncate(time.Second)
+			pair := lexPairs[rng.Intn(len(lexPairs))]
+			set := map[int64]bool{pair[0]: true, pair[1]: true}
+			for n := rng.Intn(5); n > 0; n-- {
+				set[lexFractions[rng.Intn(len(lexFractions))]] = true
+			}
+			for f := range set {
+				fr = append(fr, f)
+			}
+			sort.Slice(fr, func(i, j int) bool { return fr[i] < fr[j] })
+			for _, f := range fr {
+				if used[base.UnixNano()+f] {
+					fr = nil
+					break
+				}
+			}
+		}
+		if fr != nil {
+			// operations: retried until string order and date order fold differently (on top of what the
+			// world already says about this attribute for signer 1)
+			var prior []ClaimInfo
+			for _, c := range w.Claims {
+				if c.Kind != "delete" && c.PN == pn && c.Attr == attr && c.Signer == 1 {
+					prior = append(prior, c)
+				}
+			}
+			fold := func(cs []ClaimInfo, lexical bool) []string {
+				all := append(append([]ClaimInfo{}, prior...), cs...)
+				sort.SliceStable(all, func(i, j int) bool {
+					if lexical {
+						return C07DateKey(all[i].Date) < C07DateKey(all[j].Date)
+					}
+					return all[i].Date.Before(all[j].Date)
+				})
+				return Canon(FoldClaimInfos(all))
+			}
+			var ops []ClaimInfo
+			for try := 0; try < 40; try++ {
+				ops = ops[:0]
+				for _, f := range fr {
+					kind := []string{Set, Set, Add, Add, Del, Del}[rng.Intn(6)]
+					val := []string{"la", "lb", "lc"}[rng.Intn(3)]
+					if kind == Del && rng.Intn(3) == 0 {
+						val = ""
+					}
+					ops = append(ops, ClaimInfo{Kind: kind, PN: pn, Attr: attr, Value: val, Date: base.Add(time.Duration(f)), Signer: 1})
+				}
+				a, b := fold(ops, false), fold(ops, true)
+				if len(a) != len(b) {
+					break
+				}
+				same := true
+				for i := range a {
+					if a[i] != b[i] {
+						same = false
+					}
+				}
+				if !same {
+					break
+				}
+			}
+			for _, op := range ops {
+				used[op.Date.UnixNano()] = true
+				mk(1, op.Kind, pn, attr, op.Value, op.Date)
+			}
+			w.Features["subsecond-date"] = true
+			w.Features["c07-lexical-date-order"] = true
+		}
+	}
+	for k := 0; k < o.ReopenChains; k++ {
+		var attrClaims []ClaimInfo
+		for _, c := range w.Claims {
+			if c.Kind != "delete" {
+				attrClaims = append(attrClaims, c)
+			}
+		}
+		var target blob.Ref
+		tkind := "claim"
+		if len(attrClaims) == 0 || rng.Intn(4) == 0 {
+			target = pickPN()
+			tkind = "permanode"
+		} else {
+			target = attrClaims[rng.Intn(len(attrClaims))].Ref
+			o.Pins[target] = 0
+		}
+		depth := 3 + rng.Intn(4)
+		cut := 2 + rng.Intn(depth-2) // d1..d(cut) before the re-open, d(cut+1) after it
+		phase := 0
+		for i := 1; i <= depth; i++ {
+			switch {
+			case i == cut+1:
+				phase = 1
+			case i > cut+1 && rng.Intn(2) == 0:
+				phase++
+			}
+			// chain dates are not monotonic
+			target = del(1, target, fresh(), tkind)
+			o.Pins[target] = phase
+			tkind = "delete"
+		}
+		w.Features["c07-reopen-chain"] = true
+	}
 	for i := 0; i < o.ExtraDeletes; i++ {
 		var cands []ClaimInfo
 		for _, c := range w.Claims {
@@ -280,4 +409,58 @@ func ExtendC07(w *World, rng *rand.Rand, o C07Extra) {
 		}
 		del(si, c.Ref, fresh(), tkind)
 	}
+}
+
+// C07Phases assigns every blob of w (by index in w.Blobs) a delivery phase 0..n-1 for a history
+// that is delivered in n parts with a re-open of the index in between.  Keys, permanodes and other
+// non-claim blobs are in phase 0; a claim gets its pinned phase, or a random one (mostly 0 for
+// attribute claims); in every case a blob's phase is at least the phase of everything it depends
+// on (a delete claim never precedes its target's phase), so no phase ends with unmet dependencies.
+func C07Phases(w *World, rng *rand.Rand, n int, pins map[blob.Ref]int) []int {
+	wish := map[blob.Ref]int{}
+	for _, b := range w.Blobs {
+		p := 0
+		switch w.Kind[b.Ref] {
+		case "claim":
+			if rng.Intn(4) == 0 {
+				p = rng.Intn(n)
+			}
+		case "delete":
+			if rng.Intn(2) == 0 {
+				p = rng.Intn(n)
+			}
+		}
+		if pin, ok := pins[b.Ref]; ok {
+			p = pin
+		}
+		if p > n-1 {
+			p = n - 1
+		}
+		wish[b.Ref] = p
+	}
+	done := map[blob.Ref]int{}
+	var resolve func(r blob.Ref, depth int) int
+	resolve = func(r blob.Ref, depth int) int {
+		if p, ok := done[r]; ok {
+			return p
+		}
+		p := wish[r]
+		if depth < 64 {
+			for _, d := range w.Deps[r] {
+				if _, in := w.Kind[d]; !in {
+					continue
+				}
+				if dp := resolve(d, depth+1); dp > p {
+					p = dp
+				}
+			}
+		}
+		done[r] = p
+		return p
+	}
+	out := make([]int, len(w.Blobs))
+	for i, b := range w.Blobs {
+		out[i] = resolve(b.Ref, 0)
+	}
+	return out
 }
